@@ -11,6 +11,7 @@ def jobs(prop="C01", filt=""):
 
 
 def main(argv):
-    return enginea_prop.run("C01", jobs(), "DESIGN 4/C01",
+    from . import glue_part
+    return enginea_prop.run("C01", jobs(), "DESIGN 4/C01", post=glue_part.post("C01"),
                             functions_note="Each variant is proved equal, on the Cartesian view of its operands, to the all-Cartesian variant "
                                            "of the same operation; callees are replaced by their contracts (modular mode).")
